@@ -138,6 +138,7 @@ func execute(ctx *core.Ctx, cases []*Case, workers int, depth int) {
 		for _, c := range missing {
 			ctx.Crash("every case is executed", "", c, "child finished without reporting this case")
 		}
+		judgeLabels(ctx, cases, res.done)
 		return
 	}
 	// the child died
@@ -219,7 +220,13 @@ func Run(ctx *core.Ctx) {
 		"heads over 1 MiB, pipelined garbage, bad chunk sizes); upstream replies as a product space: status (1xx, 101, 2xx, 204, 205, 206, 304, 4xx, 5xx, 600+, 000) x " +
 		"upgrade fields x Content-Type (text/event-stream variants and others) x Content-Length / Transfer-Encoding shapes x body x request kind (GET, HEAD, " +
 		"POST, upgrade request, CONNECT through an upstream proxy, intercepted) with the core status x upgrade class x content-type class x request kind " +
-		"enumerated every run; consecutive failures on one connection and the consecutive-error counter. Every case with a " +
+		"enumerated every run; consecutive failures on one connection and the consecutive-error counter; the reply cuts (every offset of a small chunked " +
+		"reply, sampled offsets under each framing, large and gzip-coded bodies, FIN and RST, plain / GET https:// / via the upstream proxy, rejected client " +
+		"CONNECTs) and the early faults again with the proxy served through martian's http.Handler under net/http's server; the HOST dimension of hostile " +
+		"requests: lengths around 63 / 64 / 253..256 / 1 KiB / 4 KiB / 64 KiB x ASCII, 2-, 3-, 4-byte encodings (every byte offset 240..260 the start of one), " +
+		"invalid UTF-8, percent-encoded, IDN / punycode look-alikes, IPv6 zones x CONNECT authority / absolute-form / Host field x plain, TLS, intercepting " +
+		"listeners and the handler variant, every proxy built as command/run builds it (one registry shared by proxy and transport: forwarder.Dialer labels " +
+		"its metrics with the host), the labels read back after every batch and compared with Model.C12.addr2Host of the addresses dialled. Every case with a " +
 		"fault, hostile input or scripted reply is non-trivial; distinct = distinct (kind, path, framing, fault point, FIN/RST, input / reply bytes)")
 	// the corpus: single cases as one batch (ids made distinct), recorded batches as they are
 	var corpus []*Case
@@ -240,6 +247,16 @@ func Run(ctx *core.Ctx) {
 		execute(ctx, corpus, 10, 0)
 	}
 	cases := generate(ctx.Rng.Sub(), ctx.Quick())
+	if only := os.Getenv("C12_ONLY"); only != "" {
+		// development aid: run a slice of the generated cases (handler | host | a kind)
+		var sel []*Case
+		for _, c := range cases {
+			if (only == "handler" && c.Server == "handler") || (only == "host" && strings.HasPrefix(c.What, "host/")) || only == c.Kind {
+				sel = append(sel, c)
+			}
+		}
+		cases = sel
+	}
 	for i, c := range cases {
 		if i%97 == 0 && c.Kind != "client" {
 			ctx.Sample(c)
@@ -276,7 +293,7 @@ func Run(ctx *core.Ctx) {
 		}
 	}
 	wg.Wait()
-	ctx.Extra("exhaustive_offsets", "every byte offset (head and body) x FIN/RST for the small replies of families A (plain: cl, chunked, eof; https: cl; thorough tier: also https chunked/eof, intercepted cl/chunked/eof, via upstream) and every offset of a small CONNECT rejection")
+	ctx.Extra("exhaustive_offsets", "every byte offset (head and body) x FIN/RST for the small replies of families A (plain: cl, chunked, eof; https: cl; thorough tier: also https chunked/eof, intercepted cl/chunked/eof, via upstream) and every offset of a small CONNECT rejection; handler variant: plain chunked (thorough tier: also plain eof/cl, https chunked, via upstream chunked); hosts: every byte offset 240..260 as the start of a 2-, 3- and 4-byte encoding, as CONNECT authority")
 }
 
 func Replay(ctx *core.Ctx, raw json.RawMessage) {
